@@ -22,7 +22,7 @@ Print Assumptions C12_expI_neg.
 
 Theorem C12_modinv_spec : forall n x, 1 < n -> Z.gcd x n = 1 ->
   0 <= modinv n x < n /\ (modinv n x * x) mod n = 1.
-Proof. intros n x Hn Hg. split; [apply modinv_range; lia | apply modinv_spec; assumption]. Qed.
+Proof. exact modinv_full_spec. Qed.
 Print Assumptions C12_modinv_spec.
 
 (* arith.Modulus.Exp / ExpI with known factorisation = plain exponentiation, for ANY coprime factors > 1
@@ -70,12 +70,7 @@ Proof. exact (mul_sk_eq p q Pp Pq Hneq). Qed.
 
 (* Dec fails exactly on what validation rejects *)
 Theorem C12_dec_none_iff : forall c, dec p q c = None <-> validate_ct N c = false.
-Proof.
-  intros c. split.
-  - intro H. destruct (validate_ct N c) eqn:E; [|reflexivity].
-    rewrite (dec_val p q Pp Pq Hneq Hgcd c E) in H. discriminate.
-  - exact (dec_none p q c).
-Qed.
+Proof. exact (dec_none_iff p q Pp Pq Hneq Hgcd). Qed.
 
 (* -- homomorphy, for ARBITRARY valid ciphertexts (not only honest encryptions), with the exact wrap-around:
       the result is the representative of m1+m2 (resp. k*m) in [-(N-1)/2, (N-1)/2] -- *)
@@ -112,7 +107,7 @@ Theorem C12_mta_exact : forall qq a b bn rk rs,
   0 <= a < qq -> 0 <= b < qq -> Z.abs bn <= 2 ^ lprime -> qq * qq + 2 ^ lprime <= (N - 1) / 2 ->
   exists K D alpha beta,
     mta N p q a b bn rk rs = Some (K, D, alpha, beta) /\ beta = - bn /\ alpha + beta = a * b.
-Proof. intros qq. exact (mta_exact p q Pp Pq Hneq Hgcd qq (2 ^ lprime)). Qed.
+Proof. exact (mta_exact_lprime p q Pp Pq Hneq Hgcd). Qed.
 (* the same under the weakest range conditions (any signed a, b) *)
 Theorem C12_mta_exact_gen : forall a b bn rk rs,
   Z.gcd rk N = 1 -> Z.gcd rs N = 1 ->
@@ -145,29 +140,12 @@ Proof. exact mta_range_real. Qed.
 Print Assumptions C12_mta_range_real.
 
 (* -- non-vacuity: the key hypotheses are satisfiable and the functions compute (p = 11, q = 13) -- *)
-Lemma small_prime : forall r, 1 < r -> (forall n, 1 <= n < r -> Z.gcd n r = 1) -> prime r.
-Proof.
-  intros r Hr H. apply prime_intro; [assumption|]. intros n Hn. apply Zgcd_1_rel_prime. apply H. assumption.
-Qed.
-Example prime_11 : prime 11.
-Proof.
-  apply small_prime; [lia|]. intros n Hn.
-  assert (Hc : n = 1 \/ n = 2 \/ n = 3 \/ n = 4 \/ n = 5 \/ n = 6 \/ n = 7 \/ n = 8 \/ n = 9 \/ n = 10) by lia.
-  repeat (destruct Hc as [->|Hc]; [reflexivity|]). subst n. reflexivity.
-Qed.
-Example prime_13 : prime 13.
-Proof.
-  apply small_prime; [lia|]. intros n Hn.
-  assert (Hc : n = 1 \/ n = 2 \/ n = 3 \/ n = 4 \/ n = 5 \/ n = 6 \/ n = 7 \/ n = 8 \/ n = 9 \/ n = 10
-               \/ n = 11 \/ n = 12) by lia.
-  repeat (destruct Hc as [->|Hc]; [reflexivity|]). subst n. reflexivity.
-Qed.
 Example key_hyps_satisfiable :
   prime 11 /\ prime 13 /\ 11 <> 13 /\ Z.gcd (11 * 13) ((11 - 1) * (13 - 1)) = 1.
 Proof. split; [exact prime_11|]. split; [exact prime_13|]. split; [lia | reflexivity]. Qed.
 
 Example ex_enc_dec_endpoints :
-  enc 143 71 7 = Some 9060 /\ dec 11 13 9060 = Some 71 /\
+  enc 143 71 7 = Some 6866 /\ dec 11 13 6866 = Some 71 /\
   enc 143 (-71) 7 = Some 7152 /\ dec 11 13 7152 = Some (-71) /\
   enc 143 72 7 = None /\ enc 143 (-72) 7 = None.
 Proof. vm_compute. repeat split. Qed.
@@ -178,10 +156,10 @@ Example ex_validate :
   validate_ct 143 (143 * 143 - 1) = true /\ validate_ct 143 (143 * 143) = false /\ validate_ct 143 (143 * 143 + 1) = false.
 Proof. vm_compute. repeat split. Qed.
 Example ex_add_wraps :   (* 71 + 1 wraps to -71 *)
-  dec 11 13 (add 143 9060 (match enc 143 1 2 with Some c => c | None => 0 end)) = Some (-71).
+  dec 11 13 (add 143 6866 (match enc 143 1 2 with Some c => c | None => 0 end)) = Some (-71).
 Proof. vm_compute. reflexivity. Qed.
-Example ex_dec_rand : dec_with_randomness 11 13 7152 = Some (-71, 7) /\ dec_with_randomness 11 13 12345 = Some (46, 67)
-  /\ enc 143 46 67 = Some 12345.
+Example ex_dec_rand : dec_with_randomness 11 13 7152 = Some (-71, 7) /\ dec_with_randomness 11 13 12345 = Some (11, 31)
+  /\ enc 143 11 31 = Some 12345.
 Proof. vm_compute. repeat split. Qed.
 Example ex_crt : exp_crt 11 13 7 100 = powmod 143 7 100 /\ expI_crt 11 13 7 (-3) = 138 /\ (138 * 7 ^ 3) mod 143 = 1.
 Proof. vm_compute. repeat split. Qed.
